@@ -645,6 +645,8 @@ fn main() {
         }
     }
     let std = Stdfs::new();
+    let stdv = Vfs::stdfs();
+    let route_enum = arg_or("route", "direct") == "enum";
     let mut id = 0u64;
     for (ti, t0) in trees.iter().enumerate() {
         if (ti as u64) % stride != 0 || ((ti as u64) / stride) % workers != worker {
@@ -716,7 +718,8 @@ fn main() {
                 dirty = false;
             }
             // real filesystem side
-            let mut rs = apply(&std, &sandboxed(c, &rootstr));
+            // --route enum (C13): the same calls through the Vfs enum instead of the backend types
+            let mut rs = if route_enum { apply(&stdv, &sandboxed(c, &rootstr)) } else { apply(&std, &sandboxed(c, &rootstr)) };
             strip_result(&mut rs, &pre);
             if std::env::current_dir().map(|d| d != root).unwrap_or(true) {
                 // keep the observer's cwd reading, then go back
@@ -730,8 +733,18 @@ fn main() {
             let _ = std::env::set_current_dir(&root);
             // memory side
             let m = build_mem(t);
-            let rm = apply(&m, c);
-            let post_m = memproj::project(&m);
+            let (rm, post_m) = if route_enum {
+                let mv = Vfs::Memfs(m);
+                let r = apply(&mv, c);
+                let p = match &mv {
+                    Vfs::Memfs(x) => memproj::project(x),
+                    _ => unreachable!(),
+                };
+                (r, p)
+            } else {
+                let r = apply(&m, c);
+                (r, memproj::project(&m))
+            };
             let mkey = to_ascii_json(&post_m);
             let mem_side = if mkey == memkey { json!({"r": rm, "same": "t", "post": []}) } else { json!({"r": rm, "same": "f", "post": post_m}) };
             steps.push(json!({"c": c, "skipped": "-", "mem": mem_side, "std": std_side}));
